@@ -145,9 +145,54 @@ def variant_messages(d):
     _transform_all(d, _Messages)
 
 
+def variant_rename_private(d):
+    """every private function / method of the package (single leading underscore, defined with `def`) gets a new name,
+    consistently at every mention in the package (attribute and name uses); names that also occur as string literals or
+    as non-function attributes are left alone"""
+    files = glob.glob(os.path.join(d, "nixio", "**", "*.py"), recursive=True)
+    trees = {}
+    for f in files:
+        if os.sep + "test" + os.sep in f:
+            continue
+        try:
+            trees[f] = ast.parse(open(f, encoding="utf-8").read())
+        except SyntaxError:
+            continue
+    defs = set()
+    strings = set()
+    stored = set()
+    for t in trees.values():
+        for n in ast.walk(t):
+            if isinstance(n, ast.FunctionDef) and n.name.startswith("_") and not n.name.startswith("__"):
+                defs.add(n.name)
+            elif isinstance(n, ast.Constant) and isinstance(n.value, str):
+                strings.add(n.value)
+            elif isinstance(n, ast.Attribute) and isinstance(n.ctx, ast.Store):
+                stored.add(n.attr)
+            elif isinstance(n, ast.arg):
+                stored.add(n.arg)
+            elif isinstance(n, ast.Name) and isinstance(n.ctx, ast.Store):
+                stored.add(n.id)
+    names = {x for x in defs if x not in strings and x not in stored}
+    for f, t in trees.items():
+        for n in ast.walk(t):
+            if isinstance(n, ast.FunctionDef) and n.name in names:
+                n.name = n.name + "_p"
+            elif isinstance(n, ast.Attribute) and n.attr in names:
+                n.attr = n.attr + "_p"
+            elif isinstance(n, ast.Name) and n.id in names:
+                n.id = n.id + "_p"
+            elif isinstance(n, ast.alias) and n.name in names:
+                n.name = n.name + "_p"
+        out = ast.unparse(t)
+        compile(out, f, "exec")
+        open(f, "w", encoding="utf-8").write(out + "\n")
+
+
 BENIGN = [("re-emitted from the AST", variant_unparse), ("line numbers shifted", variant_shift),
           ("if/else branches exchanged under negation", variant_swap_if),
-          ("local variables renamed", variant_rename_locals), ("exception messages reworded", variant_messages)]
+          ("local variables renamed", variant_rename_locals), ("exception messages reworded", variant_messages),
+          ("private functions and methods renamed", variant_rename_private)]
 
 
 def one_seed(prop, sd):
